@@ -1,0 +1,26 @@
+//go:build verif
+
+// Contracts for contract-based verification (/verif). Comment-only: with or without the
+// build tag "verif" this file adds nothing to the compiled package.
+
+package telemetry
+
+// The standalone tracer brackets the function it is given with a start and an end trace record:
+// it runs it exactly once and hands back its result.
+//@ modset traceLog = all(EventLog.Traces), all(StandaloneTracer.invocationSubsegmentID)
+//@ func (*StandaloneTracer).withStartAndEnd
+//@   applies criticalFunction
+//@ func (*StandaloneTracer).CaptureInvokeSegment
+//@   applies criticalFunction
+//@ func (*StandaloneTracer).CaptureInitSubsegment
+//@   applies criticalFunction
+//@ func (*StandaloneTracer).CaptureInvokeSubsegment
+//@   applies criticalFunction
+//@ func (*StandaloneTracer).CaptureOverheadSubsegment
+//@   applies criticalFunction
+//@ func (*StandaloneTracer).WithErrorCause
+//@   returnsparam criticalFunction
+//@   modifies nothing
+//@ func (*StandaloneTracer).WithError
+//@   returnsparam criticalFunction
+//@   modifies nothing
